@@ -5,7 +5,8 @@ import common as C
 from common import Failure, q, coq_list
 
 ID = "C19"
-GEN = ["gen_centrality"]
+GEN = ["gen_centrality", "gen_centrality_methods"]
+EXTRA_PROPERTY_FILES = ["SrcCentrality"]     # CentralityClasses.py method bodies regenerated and proved equal to Model/Centrality.v
 ALLOWED_AXIOMS = []
 MODEL_INDEPENDENT_OF_PROOFS = True      # Model/Centrality.v contains no proofs: it still runs when a theorem breaks
 TRUSTED = [
@@ -491,7 +492,11 @@ LEVEL_TEXT = ("Theorems (Coq, all samples of any length >= 4 over any totally pr
               "class with a non-empty rank interval are attained inside the interval and bound it; construction from unsorted / "
               "duplicated edges equals construction from the cleaned (strictly increasing) list; exactly the inadmissible inputs "
               "raise. The rank formula and the stored entries are regenerated from the source on every run.")
-LEVEL_NOTE = ("Trusted: Coq kernel/vm_compute; translator gen_centrality (ratexpr); hand model Model/Centrality.v validated by "
+LEVEL_NOTE = ("Trusted: Coq kernel/vm_compute; translators gen_centrality (ratexpr) and gen_centrality_methods (the four method bodies of "
+              "CentralityClasses.py regenerated on every run, nothing pinned textually; runtime Model/CentralityRt.v: stable sorts, set as list "
+              "up to numeric equality, int() = truncation, Python indexing/slicing); hand model Model/Centrality.v proved equal to the "
+              "regenerated methods for all arguments incl. exception classes, warnings and the written file (C19_source_*, "
+              "Properties/SrcCentrality.v) and validated by "
               "correspondence (random + complete tiny scopes); exact rational arithmetic instead of IEEE rounding in N*e/100.0 "
               "(exact for integer/dyadic edges; decimal edges only explored by the search); NaN inputs and the Avg/AvgErr "
               "columns are outside the model. The tie clause is proved in the form 'class c <= i, and c < i only if the event ties "
